@@ -67,9 +67,14 @@ class ClientRoles:
         cands = [n for n in m if self.line_reader.name in self.graph.edges[n]
                  and self.block_reader.name in self.graph.edges[n]
                  and n not in (self.line_reader.name, self.block_reader.name)]
-        # prefer the one that handles the Literal/Response signals
+        # prefer the one that handles the Literal/Response signals (it may reach the block reader through a helper)
         self.assembler = None
-        for n in cands:
+        handlers = [n for n in m if n not in (self.line_reader.name, self.block_reader.name)
+                    and self.line_reader.name in self.graph.edges[n]
+                    and self.block_reader.name in self.graph.reach_from([n])
+                    and any(isinstance(x, ast.ExceptHandler) and x.type is not None and self.program.cls(
+                        x.type.id if isinstance(x.type, ast.Name) else "") is not None for x in ast.walk(m[n].node))]
+        for n in handlers or cands:
             if any(isinstance(x, ast.ExceptHandler) for x in ast.walk(m[n].node)):
                 self.assembler = m[n]
         if self.assembler is None and cands:
@@ -91,13 +96,20 @@ class ClientRoles:
             if any(isinstance(x, ast.Attribute) and isinstance(x.ctx, ast.Store) and x.attr in ("errcode", "errmsg")
                    for x in ast.walk(f.node)):
                 self.error_parser = f
+        self.error_parser_inline = False
+        if self.error_parser is None and any(isinstance(x, ast.Attribute) and isinstance(x.ctx, ast.Store) and x.attr in ("errcode", "errmsg")
+                                             for x in ast.walk(self.line_reader.node)):
+            # the error text is decoded inside the line reader itself
+            self.error_parser = self.line_reader
+            self.error_parser_inline = True
         # formatter: called from the sender, iterates its argument list
         self.formatter = None
         for n in self.graph.edges[self.sender.name]:
             f = m[n]
             if n in (self.assembler.name, self.line_reader.name, self.block_reader.name):
                 continue
-            if any(isinstance(x, ast.For) for x in ast.walk(f.node)) and len(f.params) >= 2:
+            own = f.params if "staticmethod" in f.decorators else f.params[1:]
+            if any(isinstance(x, (ast.For, ast.ListComp)) for x in ast.walk(f.node)) and len(own) >= 1:
                 self.formatter = f
         # literal builder: returns a bytes template containing "{%d+}" / "{" ... "+}"
         self.literal_builder = None
@@ -154,10 +166,15 @@ class ClientRoles:
         f = self.line_reader
         selfname = f.params[0]
         cands = {}
+        recv_vars = {t.id for a in walk_no_nested(f.node) if isinstance(a, ast.Assign) and isinstance(a.value, ast.Call)
+                     and call_name(a.value) == "recv" for t in a.targets if isinstance(t, ast.Name)}
         for n in walk_no_nested(f.node):
             if isinstance(n, ast.AugAssign) and isinstance(n.target, ast.Attribute) and isinstance(n.target.value, ast.Name) \
                     and n.target.value.id == selfname:
                 cands[n.target.attr] = cands.get(n.target.attr, 0) + 2
+                v = n.value
+                if (isinstance(v, ast.Name) and v.id in recv_vars) or (isinstance(v, ast.Call) and call_name(v) == "recv"):
+                    cands[n.target.attr] += 10  # what recv() returns is accumulated there
             elif isinstance(n, ast.Assign):
                 for t in n.targets:
                     if isinstance(t, ast.Attribute) and isinstance(t.value, ast.Name) and t.value.id == selfname:
@@ -184,7 +201,20 @@ class ClientRoles:
                     for t in n.targets:
                         if isinstance(t, ast.Attribute):
                             out[mangle(self.cls.name, t.attr)] = (pat, flags, n)
+                # a pattern compiled where it is used (module-level constants are put back in place by the normalisation pass)
+                if isinstance(n, ast.Call) and call_name(n) == "compile" and isinstance(n.func, ast.Attribute) and norm(n.func.value) == "re" \
+                        and isinstance(getattr(n, "_parent", None), ast.Attribute):
+                    pat = ev.eval(n.args[0]) if n.args else TOP
+                    flags = 0
+                    for a in n.args[1:]:
+                        flags |= regex_flags(a)
+                    if isinstance(pat, (bytes, str)):
+                        out[self._inline_key(pat, flags)] = (pat, flags, n)
         return out
+
+    @staticmethod
+    def _inline_key(pat, flags):
+        return "<re:%r/%d>" % (pat, flags)
 
     def attr(self, name):
         return mangle(self.cls.name, name)
@@ -197,6 +227,15 @@ class ClientRoles:
             if a in self.regex_attrs:
                 pat, flags, _ = self.regex_attrs[a]
                 return a, pat, flags
+        if isinstance(expr, ast.Call) and call_name(expr) == "compile" and isinstance(expr.func, ast.Attribute) and norm(expr.func.value) == "re":
+            from sa.consteval import Evaluator
+            pat = Evaluator(self.program, self.module, self.cls).eval(expr.args[0]) if expr.args else None
+            flags = 0
+            for a_ in expr.args[1:]:
+                flags |= regex_flags(a_)
+            k = self._inline_key(pat, flags)
+            if k in self.regex_attrs:
+                return k, pat, flags
         return None
 
 
